@@ -570,6 +570,22 @@ func (e *Env) trCall(n *ast.CallExpr) TVal {
 			return e.fail("unknown component %s", id.Name)
 		}
 		return TVal{T: e.st.get(id.Name), Sort: srt}
+	case "store":
+		if !need(3) {
+			return TVal{T: "0", Sort: "Int"}
+		}
+		a, i, v := arg(0), arg(1), arg(2)
+		vt := v.T
+		if v.Sort == "nil" {
+			vt = "0"
+		}
+		return TVal{T: "(store " + a.T + " " + i.T + " " + vt + ")", Sort: a.Sort, Ty: a.Ty}
+	case "unbox":
+		// the string/[]byte held in an interface value
+		if !need(1) {
+			return TVal{T: "nilS", Sort: "Slice"}
+		}
+		return TVal{T: "(unboxSlice " + arg(0).T + ")", Sort: "Slice", Ty: types.Typ[types.String]}
 	case "typeis":
 		if !need(2) {
 			return TVal{T: "false", Sort: "Bool"}
